@@ -12,7 +12,6 @@ import (
 	receiverhandler "github.com/attestantio/dirk/services/api/grpc/handlers/receiver"
 	"github.com/attestantio/dirk/services/api/grpc/interceptors"
 	"github.com/attestantio/dirk/services/checker"
-	"github.com/attestantio/dirk/services/peers"
 	staticpeers "github.com/attestantio/dirk/services/peers/static"
 	"github.com/attestantio/dirk/services/process"
 	standardprocess "github.com/attestantio/dirk/services/process/standard"
@@ -56,7 +55,7 @@ type Cluster struct {
 // a Go map, which would make participant order (and so the message sequence) unrepeatable; here
 // the order is fixed by the choice source at cluster creation.
 type PeersWrap struct {
-	peers.Service
+	*staticpeers.Service // the concrete service: further methods it may offer stay visible to type assertions
 	order []uint64
 }
 
